@@ -26,6 +26,12 @@ fn meta(_ctx: &Ctx) -> Meta {
 }
 
 pub fn judge_pkg(pkg: &Package) -> Result<(u64, u32), (String, String)> {
+    // writes that fail inside the lead, inside either header's intro / index / data and inside the
+    // payload come first, on this thread: what a failed write leaves behind must not show later
+    for k in [0usize, 50, 97, 104, 120, 150, 300, 1000] {
+        let _ = pkg.write(&mut crate::util::FailAfter { left: k });
+        let _ = pkg.metadata.write(&mut crate::util::FailAfter { left: k + 3 });
+    }
     let mut out = Vec::new();
     pkg.write(&mut out).map_err(|e| ("write-fails".to_string(), e.to_string()))?;
     // the offsets describe what ANY writer receives, not only a Vec
@@ -150,6 +156,21 @@ fn run(ctx: &Ctx, rep: &Report) {
             Ok(Ok(p)) => observe(rep, &mut local, "slack-sweep", &p, json!({"input_hex": hex::encode(b)})),
             Ok(Err(_)) => *local.entry("rejected.slack-sweep".into()).or_insert(0) += 1,
             Err(_) => *local.entry("panicked.slack-sweep(judged by C04)".into()).or_insert(0) += 1,
+        }
+    }
+    // lead name fields with and without a terminator
+    for fill in [0usize, 1, 64, 65, 66] {
+        for (s_store, n) in [(0usize, 0usize), (5, 2)] {
+            let mut b = residue_package(s_store, n);
+            for (i, x) in b[10..76].iter_mut().enumerate() {
+                *x = if i < fill { b'a' + (i % 26) as u8 } else { 0 };
+            }
+            rep.eval(1);
+            match guard(|| Package::parse(&mut &b[..])) {
+                Ok(Ok(p)) => observe(rep, &mut local, "lead-name", &p, json!({"input_hex": hex::encode(&b)})),
+                Ok(Err(_)) => *local.entry("rejected.lead-name".into()).or_insert(0) += 1,
+                Err(_) => *local.entry("panicked.lead-name(judged by C04)".into()).or_insert(0) += 1,
+            }
         }
     }
     // lead fields that might steer the layout: signature type, lead type, major/minor version
